@@ -83,7 +83,7 @@ def ensure_makefile():
 def build_coq(prop):
     """returns (ok, log, assumptions: dict theorem -> text)"""
     ensure_makefile()
-    corr = "Corr/CheckTG.vo" if prop in TG_PROPS else "Corr/Run%s.vo" % prop
+    corr = "Corr/CheckTG.vo" if prop in TG_PROPS else ("Corr/RunDD.vo" if prop in ("C03", "C04") else "Corr/Run%s.vo" % prop)
     targets = ["Properties/%s.vo" % prop, corr] + EXTRA_TARGETS.get(prop, [])
     # always recompile the small property file so that Print Assumptions is fresh evidence
     pf = os.path.join(COQ, "Properties", prop + ".vo")
